@@ -79,7 +79,7 @@ func c10TokenBodies(provider string, thorough bool) []c10Body {
 
 func c10TokenBodiesBase(provider string) []c10Body {
 	claims := func(c string) string { return b64seg(`{"alg":"none"}`) + "." + b64seg(c) + "." + b64seg("sig") }
-	good := `{"email":"` + c10Email + `","email_verified":true}`
+	good := `{"email":"` + c10Email + `","email_verified":true,"hd":"corp.test"}`
 	tok := func(id string) string {
 		return `{"access_token":"idp-access-token","refresh_token":"idp-refresh-token","expires_in":3600,"id_token":"` + id + `"}`
 	}
@@ -94,6 +94,8 @@ func c10TokenBodiesBase(provider string) []c10Body {
 			{Name: "id-token-bad-base64", Body: tok("aaa.!!!not-base64!!!.ccc"), Vouches: false, Email: ""},
 			{Name: "id-token-bad-json", Body: tok(claims(`{"email":`)), Vouches: false, Email: ""},
 			{Name: "email-verified-false", Body: tok(claims(`{"email":"` + c10Email + `","email_verified":false}`)), Vouches: false, Email: ""},
+			{Name: "email-verified-false-with-hosted-domain-claim", Body: tok(claims(`{"email":"` + c10Email + `","email_verified":false,"hd":"corp.test"}`)), Vouches: false, Email: ""},
+			{Name: "email-verified-absent-with-hosted-domain-claim", Body: tok(claims(`{"email":"outsider@partner.test","hd":"corp.test"}`)), Vouches: false, Email: ""},
 			{Name: "email-verified-absent", Body: tok(claims(`{"email":"` + c10Email + `"}`)), Vouches: false, Email: ""},
 			{Name: "email-verified-string", Body: tok(claims(`{"email":"` + c10Email + `","email_verified":"true"}`)), Vouches: false, Email: ""},
 			{Name: "empty-email", Body: tok(claims(`{"email":"","email_verified":true}`)), Vouches: false, Email: ""},
@@ -150,6 +152,10 @@ func c10UserinfoBodiesBase(provider string) []c10Body {
 		{Name: "empty-email", Body: `{"email":"","email_verified":true}`, Vouches: false, Email: ""},
 		{Name: "no-email", Body: `{"email_verified":true,"sub":"123"}`, Vouches: false, Email: ""},
 		{Name: "email-without-at-sign", Body: `{"email":"alice","username":"alice","email_verified":true}`, Vouches: true, Email: "alice"},
+		// strings that contain an address without being one: the session, if any, is for exactly what the provider said
+		{Name: "email-with-display-name", Body: `{"email":"\"IT Support\" <` + c10Email + `>","email_verified":true}`, Vouches: true, Email: `"IT Support" <` + c10Email + `>`},
+		{Name: "email-in-angle-brackets", Body: `{"email":"<` + c10Email + `>","email_verified":true}`, Vouches: true, Email: "<" + c10Email + ">"},
+		{Name: "email-with-comment", Body: `{"email":"` + c10Email + ` (mallory@evil.test)","email_verified":true}`, Vouches: true, Email: c10Email + " (mallory@evil.test)"},
 		{Name: "truncated-json", Body: `{"email":"` + c10Email, Vouches: false, Email: ""},
 		{Name: "empty-body", Body: ``, Vouches: false, Email: ""},
 		{Name: "html", Body: `<html>login</html>`, Vouches: false, Email: ""},
@@ -190,7 +196,12 @@ func c10Run(c *fw.Ctx) {
 	if err != nil {
 		panic(explore.HarnessError{Msg: err.Error()})
 	}
-	targets := []string{"google/Redeem", "okta/Redeem", "cognito/Redeem", "okta/callback", "cognito/callback"}
+	targets := []string{"google/Redeem", "okta/Redeem", "cognito/Redeem", "okta/callback", "cognito/callback", "google-hosted-domain/Redeem"}
+	ghp, err := authp.NewGoogleProvider(pd(), "", "corp.test", "", "") // a Google provider restricted to a hosted domain
+	if err != nil {
+		panic(explore.HarnessError{Msg: err.Error()})
+	}
+	ghp.RedeemURL = gp.RedeemURL
 	ce := envs.get("e2e-cognito", harness.AuthOpts{EmailDomains: []string{"corp.test"}, RootDomains: []string{"sso.test"}, ProviderType: "cognito"})
 	tStatuses, uStatuses := c10Statuses, []int{200, 401, 500, 429}
 	if c.Thorough() {
@@ -200,7 +211,7 @@ func c10Run(c *fw.Ctx) {
 
 	drive(c, "product", -1, func(x *explore.Exec, owned bool) {
 		target := targets[x.Choose("target", len(targets))]
-		provider := strings.Split(target, "/")[0]
+		provider := strings.TrimSuffix(strings.Split(target, "/")[0], "-hosted-domain")
 		tb := c10TokenBodies(provider, c.Thorough())
 		tStatus := tStatuses[x.Choose("token-status", len(tStatuses))]
 		tBody := tb[x.Choose("token-body", len(tb))]
@@ -248,6 +259,8 @@ func c10Run(c *fw.Ctx) {
 				}
 			}()
 			switch target {
+			case "google-hosted-domain/Redeem":
+				sess, callErr = ghp.Redeem("https://"+harness.AuthHost+"/idp/callback", "the-code")
 			case "google/Redeem":
 				sess, callErr = gp.Redeem("https://"+harness.AuthHost+"/idp/callback", "the-code")
 			case "okta/Redeem":
@@ -346,7 +359,7 @@ func init() {
 		ID:    "C10",
 		Level: "fault_enumeration",
 		Rule: "full product of identity-provider answers, with the userinfo answer enumerated on demand (only on executions that reach that call): token endpoint status {200,400,401,403,429,500,503} x body {complete, missing fields, id_token with 0/1/2/4 segments, bad base64, bad JSON, email_verified false/absent/string, empty or non-string email, truncated JSON, empty, HTML, array, null, a complete answer followed by text / by a second object / stopping short of its announced length, provider error documents with `error` as object / null / number / string} x connection reset; userinfo status {200,401,500,429} x body {verified, unverified, absent flag, string flag, empty/no email, truncated, empty, HTML, null} x connection reset; " +
-			"targets: GoogleProvider.Redeem, OktaProvider.Redeem, AmazonCognitoProvider.Redeem (URLs pointed at the scripted IdP) and Okta and Cognito end-to-end through the unmodified NewAuthenticatorMux /callback; " +
+			"targets: GoogleProvider.Redeem (also configured with a hosted domain), OktaProvider.Redeem, AmazonCognitoProvider.Redeem (URLs pointed at the scripted IdP) and Okta and Cognito end-to-end through the unmodified NewAuthenticatorMux /callback; " +
 			"thorough adds: EVERY proper prefix of the complete token answer and of the complete userinfo answer as a cleanly framed body, the same answers cut on the wire at every 8th byte (full Content-Length announced, connection closed early), statuses 302/404/502 (userinfo: 302/403/404/503), email_verified as number/null/\"false\", email as array/null, a JSON array, two concatenated objects; " +
 			"oracle: a session exists => the provider answered 200 with a complete answer for exactly that email, verified where Google/Okta require it; every other answer => an error (>= 400 page, no session cookie); a panic counts as a crash of the request; " +
 			"distinct_nontrivial = distinct (target, token status/body/reset, userinfo status/body/reset, session?, panic?)",
